@@ -118,6 +118,8 @@ CaseResult run_case(Tape &t, long sweep)
     res.inconclusive("build: " + b.err);
     return res;
   }
+  for (int s = 0; s < 3; s++)
+    if (plan.eff[s] == sc::T_PARENT && (mask & (1 << s)) && b.expect[s].kind == sc::Expect::OBJECT) b.expect[s].alt_nulldev = true;
   bool user_low = false;
   for (int fd : b.watch_fds) user_low = user_low || (fd >= 0 && fd <= 2);
 
@@ -213,11 +215,20 @@ CaseResult run_case(Tape &t, long sweep)
   // to hand to the child (created by the library, or supplied by the user) was
   // itself numbered 0-2.
   bool low_source = user_low;
-  for (uint32_t i = 0; i < vs_sh->nrec && i < VS_MAXREC; i++) {
-    const vs_rec &rec = vs_sh->rec[i];
-    if (rec.side != VS_PARENT) continue;
-    if (rec.fn == VS_PIPE && rec.ret == 0 && (rec.a0 <= 2 || rec.a1 <= 2)) low_source = true;
-    if (rec.fn == VS_OPEN && rec.ret >= 0 && rec.ret <= 2) low_source = true;
+  {
+    // descriptors the library created on 0-2 and did not move away again
+    bool low[3] = { false, false, false };
+    for (uint32_t i = 0; i < vs_sh->nrec && i < VS_MAXREC; i++) {
+      const vs_rec &rec = vs_sh->rec[i];
+      if (rec.side != VS_PARENT) continue;
+      if (rec.fn == VS_PIPE && rec.ret == 0) {
+        if (rec.a0 >= 0 && rec.a0 <= 2) low[rec.a0] = true;
+        if (rec.a1 >= 0 && rec.a1 <= 2) low[rec.a1] = true;
+      }
+      if (rec.fn == VS_OPEN && rec.ret >= 0 && rec.ret <= 2) low[rec.ret] = true;
+      if (rec.fn == VS_FCNTL && (rec.a1 == F_DUPFD || rec.a1 == F_DUPFD_CLOEXEC) && rec.ret > 2 && rec.a0 >= 0 && rec.a0 <= 2) low[rec.a0] = false;
+    }
+    low_source = low_source || low[0] || low[1] || low[2];
   }
   if (low_source) res.cls("source-descriptor-on-0-2");
   if (res.kind == CaseResult::FAIL && low_source) {
